@@ -660,11 +660,22 @@ class Interp:
                 defs = [st for st in f.module.tree.body if isinstance(st, ast.Assign) and len(st.targets) == 1
                         and isinstance(st.targets[0], ast.Name) and st.targets[0].id == e.id]
                 if len(defs) == 1:
+                    # evaluated once per interpreter: a module-level list / dict / set is ONE object that every function shares
+                    key = ("<module>", f.module.name, e.id)
+                    if key in self._class_consts:
+                        return self._class_consts[key]
                     self._resolving.add(e.id)
                     try:
-                        return self.eval(defs[0].value, {}, f)
+                        v = self.eval(defs[0].value, {}, f)
                     finally:
                         self._resolving.discard(e.id)
+                    if isinstance(v, (list, dict, set)):
+                        self._class_consts[key] = v
+                    return v
+                # a module-level function used as a value (handed over as a callback)
+                g = self.hier.repo.funcs.get("%s.%s" % (f.module.name, e.id))
+                if g is not None and g.cls is None:
+                    return BoundMethod(None, g)
             return TOP
         if isinstance(e, ast.Attribute):
             base = self.eval(e.value, env, f)
